@@ -56,7 +56,7 @@ def enc_markov(mo):
     return "%d,%d,%s" % (mo['v'], mo['h'], "t" if 'nofanout' in mo else "f")
 
 
-def gen_treebank(rng, kmax=5, nmax=8, disc=True, repeat=True, words=None):
+def gen_treebank(rng, kmax=5, nmax=8, disc=True, repeat=True, words=None, bare=False):
     """1..kmax trees; repeated subtrees/trees so that counts exceed 1; repeated sibling labels"""
     ts = []
     if repeat and rng.random() < 0.25:
@@ -85,6 +85,13 @@ def gen_treebank(rng, kmax=5, nmax=8, disc=True, repeat=True, words=None):
     k = rng.randint(1, kmax)
     labels = rng.choice([["S", "VP", "NP"], ["A", "B"], treegen.PLAIN_LABELS])
     for _ in range(k):
+        if bare and rng.random() < 0.12:
+            # a one-word sentence as the bracket reader returns it for `(NN dog)`: the root of the tree is the token
+            from impl import mk_leaf
+            t = mk_leaf(1, rng.choice(["NN", "VB", labels[0]]), rng.choice(words or ["Hund", "a", "bellt"]), "--", "--", "--")
+            t.data['sid'] = len(ts) + 1
+            ts.append(t)
+            continue
         if repeat and ts and rng.random() < 0.35:
             t = clone(rng.choice(ts))
             # put it under a different parent sometimes (different vertical context)
